@@ -222,6 +222,74 @@ def run_once(I, fs, lang, multi, ver):
     return r
 
 
+PRE = ("absent", "same", "differs", "longer")
+
+
+def case_folder_step(case):
+    """one run of the writer from an ARBITRARY pre-state of the destination: every file the run is responsible for is,
+    independently, absent / exactly what a fresh run writes / other bytes of the same length / longer.  After the run each
+    file holds the fresh content; files that already held it were not touched."""
+    lang, multi, pre = case
+    P = prog()
+    I = new_interp(P)
+    res = {"paths": 0, "violations": [], "case": [lang, multi, list(pre)]}
+
+    def entry(I):
+        fresh_fs = Fs(); fresh_fs.add_dir("/out")
+        r0 = run_once(I, fresh_fs, lang, multi, "v1")
+        if r0.variant != 0:
+            raise Unsupported("fresh run failed")
+        fresh = {p: list(n.data) for p, n in fresh_fs.nodes.items() if not n.is_dir}
+        names = sorted(fresh)
+        if len(names) != len(pre):
+            raise Unsupported("vacuity: expected %d files, fresh run wrote %s" % (len(pre), names))
+        fs = Fs(); fs.add_dir("/out")
+        olds = {}
+        for k, (p, st) in enumerate(zip(names, pre)):
+            data = fresh[p]
+            if st == "absent":
+                continue
+            if st == "same":
+                old = list(data)
+            elif st == "differs":
+                b = z3.BitVec("x%d" % k, 32)
+                pos = len(data) // 2
+                I.assume(b != data[pos]); I.assume(z3.ULE(b, 126)); I.assume(z3.UGE(b, 32))
+                old = list(data); old[pos] = b
+            else:
+                old = list(data) + [z3.BitVec("t%d_%d" % (k, j), 32) for j in range(3)]
+            fs.add_file(p, old, mtime=0)
+            olds[p] = st
+        n0 = len(fs.log)
+        r = run_once(I, fs, lang, multi, "v1")
+        return r, fs, fresh, olds
+
+    for kind, out, pc in I.explore(entry, max_paths=50):
+        res["paths"] += 1
+        if kind == "panic":
+            res["violations"].append({"kind": "panic", "msg": out.msg}); continue
+        r, fs, fresh, olds = out
+        if r.variant != 0:
+            res["violations"].append({"kind": "error", "msg": repr(r.fields[0])}); continue
+        for p, want in fresh.items():
+            node = fs.nodes.get(p)
+            st = olds.get(p, "absent")
+            muts = [op for op in fs.log if op[0] in MUT and op[1] == p]
+            if st == "same":
+                if muts or node is None or node.mtime != 0:
+                    res["violations"].append({"kind": "rewritten-although-unchanged", "file": p, "pre": list(pre)})
+                continue
+            e = bytes_eq(I, node.data, want) if node is not None else False
+            m = decide(I, e)
+            if m is not None:
+                res["violations"].append({"kind": "content-differs-from-fresh-run", "file": p, "pre": list(pre), "state": st})
+    uniq = {}
+    for v in res["violations"]:
+        uniq.setdefault((v["kind"], v.get("file")), v)
+    res["violations"] = list(uniq.values())
+    return finish_case(I, res)
+
+
 def snapshot(fs):
     return {p: ("".join(chr(c) for c in n.data), n.mtime) for p, n in fs.nodes.items() if not n.is_dir}
 
@@ -287,7 +355,14 @@ def run(rep, tier, only=None):
     rep.outside = ["empty generated output (check_write_file skips it): unreachable from the CLI, every back end writes a version header and empty parse results are dropped before the writer",
                    "I/O failures (permission, disk full) and concurrent writers", "files of crates that no longer contain typeshared types (the last run is not responsible for them)"]
     rep.assumptions = ["std::fs is a model: read/write/File::create/OpenOptions::open/create_dir_all with POSIX truncation semantics; mtime is a token bumped by every mutating operation"]
-    groups = [("step", "case_step", steps), ("codable", "case_codable", cod), ("sequence", "case_sequence", seqs)]
+    import itertools
+    fsteps = []
+    for l in LANGS:
+        fsteps += [(l, False, pre) for pre in itertools.product(PRE, repeat=1)]
+        nfiles = 3 if l == "swift" else 2
+        fsteps += [(l, True, pre) for pre in itertools.product(PRE, repeat=nfiles)]
+    rep.bounds["folder-step"] = "one run of write_single_file / write_multiple_files (+post_generation) from every pre-state of the destination: each file independently absent / fresh content / one (symbolic) byte different / 3 symbolic bytes longer; six languages"
+    groups = [("step", "case_step", steps), ("codable", "case_codable", cod), ("folder-step", "case_folder_step", fsteps), ("sequence", "case_sequence", seqs)]
     for gname, fn, cs in groups:
         if only and gname not in only:
             continue
@@ -387,6 +462,35 @@ def native(gname, case, v):
                 ch = [p for p in again if again[p] != after.get(p)]
                 return True, "re-running typeshare --lang %s with unchanged sources touched %s" % (lang, ch), payload
             return False, "real binary: outputs equal the fresh run and the re-run touched nothing", None
+        if gname == "folder-step":
+            lang, multi, pre = case
+            out = os.path.join(d, "out")
+            fout = os.path.join(d, "fresh")
+            real_run(d, lang, multi, "v1", fout)
+            fresh = tree(fout)
+            names = sorted(fresh)
+            if len(names) != len(pre):
+                return None, "real fresh run wrote %s, the model expected %d files" % (names, len(pre)), None
+            os.makedirs(out, exist_ok=True)
+            for p, st in zip(names, pre):
+                b = fresh[p][0]
+                if st == "absent":
+                    continue
+                data = b if st == "same" else (bytes((c ^ 1) if i == len(b) // 2 else c for i, c in enumerate(b)) if st == "differs" else b + b"zzz")
+                os.makedirs(os.path.dirname(os.path.join(out, p)) or out, exist_ok=True)
+                open(os.path.join(out, p), "wb").write(data)
+            before = tree(out)
+            time.sleep(0.02)
+            real_run(d, lang, multi, "v1", out)
+            after = tree(out)
+            payload = {"op": "folder-step", "lang": lang, "multi": multi, "pre": list(pre)}
+            for p, st in zip(names, pre):
+                if p not in after or after[p][0] != fresh[p][0]:
+                    return True, "typeshare --lang %s (%s) into a destination where %s: %s holds %r... afterwards instead of the freshly generated content" % (
+                        lang, "folder" if multi else "single file", dict(zip(names, pre)), p, (after.get(p) or (b"<missing>",))[0][-50:]), payload
+                if st == "same" and after[p] != before[p]:
+                    return True, "typeshare --lang %s re-wrote %s although it already held the generated bytes" % (lang, p), payload
+            return False, "real binary: every file holds the fresh content, unchanged files untouched", None
         if gname in ("step", "codable"):
             # drive the real writer through the binary: pre-seed the destination with the counterexample's old bytes
             lang = "swift" if gname == "codable" else "typescript"
@@ -426,7 +530,9 @@ def native(gname, case, v):
 
 def replay(body):
     c = body["case"]
-    if c["op"] == "sequence":
+    if c["op"] == "folder-step":
+        ok, why, _ = native("folder-step", (c["lang"], c["multi"], tuple(c["pre"])), {})
+    elif c["op"] == "sequence":
         ok, why, _ = native("sequence", (c["lang"], c["multi"], tuple(c["hist"])), {})
     else:
         ok, why, _ = native(c["op"], None, c)
